@@ -362,7 +362,7 @@ func (bf *buffer) ReadPeek(n int) ([]byte, error) {
 	verifYield(82)
 	bf.ccond.L.Lock()
 	verifYield(83)
-	for ; cpos >= ppos; ppos = bf.pseq.get() {
+	for ppos = bf.pseq.get(); cpos >= ppos; ppos = bf.pseq.get() {
 		verifYield(84)
 		if bf.isDone() {
 			verifYield(85)
@@ -436,7 +436,7 @@ func (bf *buffer) ReadWait(n int) ([]byte, error) {
 	verifYield(92)
 	bf.ccond.L.Lock()
 	verifYield(93)
-	for ; next > ppos; ppos = bf.pseq.get() {
+	for ppos = bf.pseq.get(); next > ppos; ppos = bf.pseq.get() {
 		verifYield(94)
 		if bf.isDone() {
 			verifYield(95)
